@@ -176,6 +176,64 @@ def _envelope_plans():
     return out
 
 
+def cli_written_out(oc):
+    """The serialisation as the command line writes it out (`mosromgr merge`, to stdout and to -o, in real processes whose
+    stdout encoding varies): whenever the command succeeds, what it wrote reads back as the running order the library's
+    own merge of the same files gives - identical content, still completed.  (Whether it should succeed is C19's.)"""
+    import os, shutil, subprocess, sys, tempfile, warnings
+    from . import impl
+    from mosromgr.moscollection import MosCollection
+    from mosromgr.mostypes import MosFile
+    sets = {'warning on the way': [TJ.to_text(B.ro_doc([B.story('A', [B.p('caf\u00e9 \u00a320'), B.item('a1')]), B.story('B', [])], message_id='1', slug='\u00dcbersicht')),
+                                   TJ.to_text(B.story_delete(['A', 'nowhere', 'B'], message_id='2')),
+                                   TJ.to_text(B.story_append([B.story('C', [B.p('na\u00efve')])], message_id='3')), TJ.to_text(B.ro_delete(message_id='4'))],
+            'beyond latin-1': [TJ.to_text(B.ro_doc([B.story('A', [B.p('\u20ac 5, \u201cquoted\u201d, \u041a\u0438\u0435\u0432, \U0001d11e')])], message_id='1')),
+                               TJ.to_text(B.story_insert('A', [B.story('A', [])], message_id='2')), TJ.to_text(B.ro_delete(message_id='3'))],
+            'plain ascii': [TJ.to_text(B.ro_doc([B.story('A', [B.item('a1')])], message_id='1')), TJ.to_text(B.ro_delete(message_id='2'))]}
+    root = tempfile.mkdtemp(prefix='mrm-c14-cli-')
+    try:
+        for label, docs in sets.items():
+            fns = []
+            for k, t in enumerate(docs):
+                fn = os.path.join(root, f'{label[:3]}_{k}.mos.xml')
+                with open(fn, 'w', encoding='utf-8') as f:
+                    f.write(t)
+                fns.append(fn)
+            with warnings.catch_warnings():
+                warnings.simplefilter('ignore')
+                mc = MosCollection.from_files(fns)
+                mc.merge(strict=False)
+            want = TJ.to_tree(mc.ro.xml)
+            for enc in ('utf-8', 'latin-1', 'ascii'):
+                for to_file in (False, True):
+                    outp = os.path.join(root, 'out.xml')
+                    if os.path.exists(outp):
+                        os.remove(outp)
+                    code = 'import sys; sys.path.insert(0, %r); from mosromgr.cli import main; sys.exit(main(sys.argv[1:]) or 0)' % impl.REPO
+                    env = dict(os.environ, PYTHONIOENCODING=enc, PYTHONDONTWRITEBYTECODE='1')
+                    pr = subprocess.run([sys.executable, '-c', code, 'merge', '-n', '-f'] + fns + (['-o', outp] if to_file else []),
+                                        stdout=subprocess.PIPE, stderr=subprocess.PIPE, env=env, timeout=120)
+                    oc.evaluations += 1
+                    oc.count('cli-written-out')
+                    if pr.returncode != 0:
+                        continue
+                    oc.in_domain += 1
+                    try:
+                        with warnings.catch_warnings():
+                            warnings.simplefilter('ignore')
+                            back = MosFile.from_file(outp) if to_file else MosFile.from_string(pr.stdout.decode(enc))
+                        got = {'cls': type(back).__name__, 'completed': bool(back.completed), 'same': TJ.to_tree(back.xml) == want}
+                    except Exception as e:  # noqa: BLE001
+                        got = {'err': impl.err_name(e)}
+                    if got != {'cls': 'RunningOrder', 'completed': True, 'same': True}:
+                        oc.failing.append({'kind': 'roundtrip-cli', 'label': f'merge {"-o file" if to_file else "to stdout"}, stdout encoding {enc}, {label}', 'docs': docs,
+                                           'encoding': enc, 'to_file': to_file, 'state_has_cr': False,
+                                           'spec': 'what `mosromgr merge` wrote out does not read back as the merged running order (identical content, still completed)',
+                                           'impl': dict(got, stdout=pr.stdout[:300].decode('latin-1'), stderr=pr.stderr[-200:].decode('latin-1'))})
+    finally:
+        shutil.rmtree(root, ignore_errors=True)
+
+
 def run_c14(tier, seed):
     from . import impl, lean
     oc = Outcome('C14')
@@ -308,6 +366,8 @@ def run_c14(tier, seed):
     # written to a file and loaded from it in a process whose locale encoding is NOT UTF-8 (LC_ALL=C, UTF-8 mode off):
     # files are XML documents in the encoding they declare (UTF-8 by default), whatever the locale
     locale_check(oc, [t for _, t in states if any(ord(ch) > 127 for ch in t)][:25] + [t for _, t in states][:5])
+    # ... and written out by the command line (stdout in three encodings, -o file), read back
+    cli_written_out(oc)
     # model: serialize byte for byte
     resps = lean.run_batch([{'op': 'serialize', 'doc': t} for t, _ in states])
     for (tree, text), r in zip(states, resps):
@@ -393,6 +453,16 @@ def replay(pid, fl):
 def replay_locale(pid, fl):
     oc = Outcome(pid)
     locale_check(oc, [fl['text']])
+    if oc.failing:
+        print(f'VIOLATION property={pid} replay=(this file): still fails on the current tree')
+        return 1
+    print(f'{pid}: the recorded input no longer fails on the current tree')
+    return 0
+
+
+def replay_cli(pid, fl):
+    oc = Outcome(pid)
+    cli_written_out(oc)
     if oc.failing:
         print(f'VIOLATION property={pid} replay=(this file): still fails on the current tree')
         return 1
